@@ -62,6 +62,7 @@ def run_p(seed, tier, replay=None):
     # the priority queue must contain every listed test exactly once (nothing dropped or duplicated before scheduling)
     rp = common.run_streams([("p_prio", [seed, 300 if tier == "quick" else 6000, vlib.BUILD + "/prio-tmp"])])
     for (b, args, idx, req, impl) in rp.cases:
+        if not req.startswith("prio "): continue
         want = sorted(f"{bn.split(':')[0]}/{t}" for bn in req.split(" ")[1].split(";") for t in (bn.split(":")[1].split(",") if bn.split(":")[1] != "." else []))
         got = sorted(impl.split(",")) if impl != "." else []
         if want != got:
